@@ -134,6 +134,15 @@ def _trig_reduce(p):
         changed = False
         for m, c in list(p.t.items()):
             for i, (a, pw) in enumerate(m):
+                if isinstance(a, tuple) and a[0] == 'fn' and a[1] == 'sqrt' and pw >= 2:
+                    # sqrt(u)^2 -> u   (on the domain where sqrt(u) is a number at all)
+                    rest = m[:i] + (((a, pw - 2),) if pw > 2 else ()) + m[i + 1:]
+                    q = Poly({_mul_mono(rest, ()): c}) * Poly(dict(a[2]))
+                    r = dict(p.t)
+                    del r[m]
+                    p = Poly(r) + q
+                    changed = True
+                    break
                 if isinstance(a, tuple) and a[0] == 'fn' and a[1] == 'sin' and pw >= 2:
                     rest = m[:i] + (((a, pw - 2),) if pw > 2 else ()) + m[i + 1:]
                     cosatom = ('fn', 'cos', a[2])
